@@ -18,6 +18,7 @@ EXPLANATION = EXPLANATION + " Added while testing against seeded changes: " + EX
 EXPLANATION = EXPLANATION + ' Rounds 12-13: (R11) at teardown the source is dispatched before the flow table is drained and one undispatchable message does not end that loop (= C05.R5).'
 EXPLANATION = EXPLANATION + " Rounds 14-15: (R12) only the stream handle's Drop reports its id on the dropped-flows queue, conditionally or not (= C06.R7); R4 also pairs, path-wise, every slice counted by a vectored write with a slice put into the frame; (S8) the WebSocket adapters hand over every message; (S9) the Push constructors are exact."
 EXPLANATION = EXPLANATION + " Rounds 16-17: S8 also covers the outgoing half of the adapters (start_send / poll_ready / poll_flush / poll_close hand on the result of the underlying call; no branch on the library's error kinds)."
+EXPLANATION = EXPLANATION + ' Round 18: (R13) the flow-id generators return only ids that are not in the flow table and non-zero (= C07.R1 / R2).'
 ASSUMPTIONS = ["tokio channels are FIFO; the WebSocket sink preserves message order"]
 NOT_DECIDED = "that no interleaving corrupts or duplicates bytes (follows from R1-R4 + FIFO, not re-proved)"
 THOROUGH_CONFIGS = ["mux-nodefault", "mux-std-only", "mux-yawc"]
